@@ -108,6 +108,7 @@ class bspline(object):
                     xspot = [0]
                 else:
                     xspot = int(nx/(nbkpts-1)) * np.arange(nbkpts, dtype='i4')
+                    xspot[xspot > nx-1] = nx - 1  # IDL clamps subscripts
                 bkpt = x[xspot].astype('f')
             else:
                 raise ValueError('No information for bkpts.')
